@@ -70,6 +70,49 @@ theorem simple_list_selected_visible (n : Nat) (ops : List Op) (h : Nat) (hh : 0
     · show follow s h + ((s.index - follow s h).toNat : Int) = s.index
       omega
 
+/-- **Rows in order, contiguous, without overlap, complete** — after any history (including
+    `SetItems` anywhere in it), `Draw` into a window of any height `h` prints row `k` for exactly the
+    `k < min (n − offset) h`, in that order, and row `k` shows item `offset + k`: consecutive rows,
+    consecutive items, no row printed twice, and the viewport is filled whenever enough items remain. -/
+theorem simple_list_rows_in_order (n : Nat) (ops : List Op) (h : Nat) :
+    ∃ s, run gen (new n) ops = .ok s ∧ ∃ s' rows, draw gen s h = .ok (s', rows) ∧
+      (0 < s.n → rows.length = min (s.n - s'.offset.toNat) h) ∧ (s.n = 0 → rows = []) ∧
+      ∀ (k : Nat) (r : Row), rows[k]? = some r → r.row = k ∧ r.item = s'.offset + (k : Int) := by
+  obtain ⟨s, he, hi⟩ := run_ok ops (new n) (inv_new n)
+  obtain ⟨s', rows, hd, _, _, _, hrows⟩ := draw_ok s h hi
+  refine ⟨s, he, s', rows, hd, ?_, ?_, ?_⟩
+  · intro hn
+    obtain ⟨ho, hr⟩ := hrows hn
+    rw [hr, ho]; simp [Model.SimpleList.rows]
+  · intro h0
+    have : draw gen s h = .ok (s, []) := by
+      simp [draw, gen, Gen.ListFacts.drawEmptyGuard, h0]
+    rw [this] at hd
+    cases hd; rfl
+  · intro k r hk
+    by_cases hn : 0 < s.n
+    · obtain ⟨ho, hr⟩ := hrows hn
+      rw [hr] at hk
+      have hmem := List.mem_of_getElem? hk
+      simp only [Model.SimpleList.rows, List.getElem?_map] at hk
+      cases hg : (List.range (min (s.n - (follow s h).toNat) h))[k]? with
+      | none => rw [hg] at hk; cases hk
+      | some i =>
+        rw [hg] at hk
+        have hik : i = k := by
+          have hlt := Lemmas.DynList.getElem?_lt hg
+          rw [List.getElem?_eq_getElem hlt, List.getElem_range] at hg
+          exact (Option.some.inj hg).symm
+        simp only [Option.map_some, Option.some.injEq] at hk
+        subst hk; subst hik
+        exact ⟨rfl, by rw [ho]⟩
+    · have h0 : s.n = 0 := by omega
+      have : draw gen s h = .ok (s, []) := by
+        simp [draw, gen, Gen.ListFacts.drawEmptyGuard, h0]
+      rw [this] at hd
+      cases hd
+      simp at hk
+
 /-- Non-vacuity: a concrete history on three items. -/
 example : (match run gen (new 3) [.down, .down, .draw 2, .setItems 1, .draw 2, .«end»] with
     | .ok s => s.index == 0 && s.offset == 0 | .error _ => false) = true := by decide
@@ -113,6 +156,76 @@ theorem pager_offset_clamped (s : St) (w h : Nat) :
   · rename_i hw
     exact ⟨(clamp_bounds _ _ _).1, (clamp_bounds _ _ _).2, fun h => absurd h hw⟩
 
+/-- **Offset clamped after every scroll sequence** — after ANY history of ScrollDown/ScrollUp/direct
+    writes to `Offset`/text replacement/`Layout()`/`Draw` (any window sizes, zero included), from
+    the initial pager, a `Draw` into a `w × h` window leaves `0 ≤ Offset ≤ max 0 (lines − h)`; and
+    every later `Draw` into a window of the same width keeps the laid-out lines. -/
+theorem pager_scroll_history (ops : List Op) (w h : Nat) :
+    ∃ s', s' = (draw Gen.ListFacts.layoutFlushesLast (run Gen.ListFacts.layoutFlushesLast init ops) w h).1 ∧
+      0 ≤ s'.offset ∧ s'.offset ≤ max 0 ((s'.lines.length : Int) - h) ∧ s'.width = w ∧
+      (draw Gen.ListFacts.layoutFlushesLast s' w h).1 = s' := by
+  obtain ⟨s, hs⟩ : ∃ x, x = run Gen.ListFacts.layoutFlushesLast init ops := ⟨_, rfl⟩
+  rw [← hs]
+  obtain ⟨h1, h2, _⟩ := pager_offset_clamped s w h
+  have hw : (draw Gen.ListFacts.layoutFlushesLast s w h).1.width = (w : Int) := by
+    simp only [draw]; split
+    · rfl
+    · rename_i hw; exact (Classical.not_not.mp hw).symm
+  obtain ⟨s', hs'⟩ : ∃ x, x = (draw Gen.ListFacts.layoutFlushesLast s w h).1 := ⟨_, rfl⟩
+  rw [← hs'] at h1 h2 hw
+  refine ⟨s', hs', h1, h2, hw, ?_⟩
+  have hidem : clampOffset s'.lines.length s'.offset h = s'.offset := by
+    unfold clampOffset; simp only []
+    split <;> split <;> omega
+  simp only [draw, hw, ne_eq, not_true_eq_false, if_false, hidem]
+  rw [← hw]
+
+/-- **Draw presents the lines from the offset on** — the `h` rows drawn are the laid-out lines
+    `offset, offset+1, …` (each through `drawRow`), followed by blank rows when the text ends. -/
+theorem pager_draw_rows (s : St) (w h : Nat) (r : Nat) (hr : r < h) :
+    (draw Gen.ListFacts.layoutFlushesLast s w h).2[r]? =
+      some (match (draw Gen.ListFacts.layoutFlushesLast s w h).1.lines[(draw Gen.ListFacts.layoutFlushesLast s w h).1.offset.toNat + r]? with
+        | some l => drawRow w l
+        | none => List.replicate w none) := by
+  simp only [draw]
+  generalize (if (w : Int) ≠ s.width then { s with width := w, lines := layout Gen.ListFacts.layoutFlushesLast w s.text } else s) = s1
+  generalize (clampOffset s1.lines.length s1.offset h).toNat = o
+  by_cases hlt : o + r < s1.lines.length
+  · have hv : r < ((s1.lines.drop o).take h).length := by simp; omega
+    rw [List.getElem?_append_left (by simpa using hv)]
+    simp [hr, List.getElem?_drop, hlt]
+  · have hv : ((s1.lines.drop o).take h).length ≤ r := by simp; omega
+    rw [List.getElem?_append_right (by simpa using hv)]
+    have hnone : s1.lines[o + r]? = none := List.getElem?_eq_none (by omega)
+    rw [hnone, List.getElem?_replicate]
+    simp only [List.length_map, List.length_take, List.length_drop]
+    split
+    · rfl
+    · omega
+
+/-- **No character is lost on the drawn row** — a laid-out line (it respects the width, see
+    `pager_complete`) whose characters are at least one column wide is drawn, in a window of width
+    `w ≥ 1`, with EVERY character in its own cell: character `k` at the column that is the total width
+    of the characters before it, which lies inside the window — also a wide grapheme that ends the
+    line at the right edge. -/
+theorem pager_row_keeps_characters (w : Nat) (hw : 1 ≤ w) (cs : List Ch) (hpos : ∀ c ∈ cs, c.isNl = false → 1 ≤ c.width)
+    (l : Line) (hl : l ∈ layout Gen.ListFacts.layoutFlushesLast w cs) (k : Nat) (c : Ch) (hk : l[k]? = some c) :
+    widthSum (l.take k) < w ∧ (drawRow w l)[(widthSum (l.take k)).toNat]? = some (some c) := by
+  have hg : Good w l := layout_good _ w cs l hl
+  have hsub : ∀ c ∈ l, 1 ≤ c.width := by
+    intro c hc
+    have hfl : c ∈ (layout Gen.ListFacts.layoutFlushesLast w cs).flatten := List.mem_flatten.mpr ⟨l, hl, hc⟩
+    rw [(pager_complete w cs).1, List.mem_filter] at hfl
+    exact hpos c hfl.1 (by simpa using hfl.2)
+  have hcol := good_cols w hw l hg hsub k c hk
+  refine ⟨hcol, ?_⟩
+  have := (go_spec w l (List.replicate w none) 0 (Int.le_refl 0) hsub (by simp)).2.2 k c hk (by omega)
+  simpa [drawRow] using this
+
+/-- Non-vacuity: a wide character at the right edge of a 3-column window: "ab" + wide → the wide one
+    starts in column 2. -/
+example : drawRow 3 [⟨[97], 1⟩, ⟨[98], 1⟩, ⟨[0xe4], 2⟩] = [some ⟨[97], 1⟩, some ⟨[98], 1⟩, some ⟨[0xe4], 2⟩] := by decide
+
 /-- Non-vacuity: "ab", newline, "c" without terminator at width 2 gives the lines "ab", "", "c"
     (the empty line is the newline met right after the wrap). -/
 example :
@@ -135,6 +248,30 @@ theorem scrollbar_in_track (total view top h : Int)
   Lemmas.Scrollbar.bar_in_track total view top h hv hvt ht0 ht hh
 
 example : bar 10 3 7 5 = some ⟨3, 1⟩ := by decide
+
+/-- **Every input, zero sizes included** — for ALL `TotalHeight`, `ViewHeight`, `Top` (any integers,
+    valid or not) and every window height `h ≥ 0`: only rows inside the window receive the bar; and
+    nothing at all is drawn when there is no content (`total < 1`), when the content fits the
+    viewport (`view ≥ total`), or when the window has no rows.  (`TotalHeight` is the only divisor and
+    is ≥ 1 wherever the code divides.) -/
+theorem scrollbar_all_inputs (total view top : Int) (h : Nat) :
+    (∀ r ∈ rows total view top h, r < h) ∧
+    ((total < 1 ∨ view ≥ total ∨ h = 0) → rows total view top h = []) := by
+  constructor
+  · intro r hr
+    unfold rows at hr
+    split at hr
+    · cases hr
+    · exact List.mem_range.mp (List.mem_filter.mp hr).1
+  · intro hc
+    unfold rows
+    rcases hc with hc | hc | hc
+    · simp [bar, hc]
+    · have : bar total view top h = none := by unfold bar; split <;> simp
+      rw [this]
+    · subst hc; split <;> simp
+
+example : rows 10 3 7 5 = [3] := by decide
 
 end Scrollbar
 
